@@ -8,7 +8,7 @@
    This file holds statements only; proofs are in proofs/ConnProofs.v. *)
 From Coq Require Import ZArith List Bool.
 From GCNP Require Import base.GoInt base.Bytes base.Codec gen.Constants_gen model.Prim model.MsgTypes model.Frame model.Segment
-  model.Conn proofs.FrameProofs proofs.SegmentProofs proofs.ConnProofs.
+  model.Conn model.MsgCodec model.MsgValid model.FrameValid proofs.FrameProofs proofs.SegmentProofs proofs.FrameFinal proofs.ConnProofs.
 Import ListNotations.
 Open Scope Z_scope.
 
@@ -24,101 +24,77 @@ Theorem C15_legacy_delivery :
 Proof. exact @legacy_delivery. Qed.
 Print Assumptions C15_legacy_delivery.
 
-(* ---- (2) modern framing, EVERY segmentation chosen by the peer: whole envelopes grouped into self-contained segments
-   (payload <= 131071), one envelope of any size cut at any points into >= 1 non-empty parts carried by
-   non-self-contained segments, in any mixture, any number: the same frames are delivered in the same order and the
-   accumulator is empty at the end.  PARTIAL: the first part of a split envelope must hold the 9-byte header
-   ([segmentation_hdr]); without that condition the code fails: C15_modern_delivery_refuted. *)
-Theorem C15_modern_delivery_partial :
+(* ---- (2) modern framing, EVERY segmentation the specification allows: whole envelopes grouped into self-contained
+   segments (payload <= 131071); one envelope of any size cut at ANY points - inside its 9-byte header as well - into any
+   number of parts carried by non-self-contained segments, zero-length parts included (the code appends them and nothing
+   else happens); any mixture, any number: the same frames are delivered in the same order, the accumulator is empty at the
+   end and the state is unchanged.  By induction over the segmentation derivation; no bound on counts or sizes.
+   (0 < fc_hlen: the header decoder needs at least one byte; it is 9 in both instances.) *)
+Theorem C15_modern_delivery :
   forall (F H C : Type) (fc : fcodec F H C) (sc : scodec C) (r : role) (ce c : C)
          (fs : list F) (envs : list (list Z)) (nfs : list F) (ss : list wire_seg) (bss : list (list Z)) (st : conn C),
+  0 < fc_hlen fc ->
   enveloped fc ce c fs envs nfs -> Forall (calm fc r) nfs ->
-  segmentation_hdr (fc_hlen fc) envs ss -> seg_encoded sc c ss bss ->
+  segmentation envs ss -> seg_encoded sc c ss bss ->
   c_modern st = true -> c_comp st = c -> c_target st = 0 -> c_acc st = [] ->
   rx_all fc sc r st (concat bss) = (st, nfs, RxOk).
 Proof. exact @modern_delivery. Qed.
-Print Assumptions C15_modern_delivery_partial.
+Print Assumptions C15_modern_delivery.
 
 (* the same, with every law discharged: frames = header + opaque body (frame.RawCodec), segments of model/Segment.v;
    with LZ4 the payload compressor's contract (C08) is asked of each payload *)
 Theorem C15_modern_delivery_raw :
   forall (r : role) (c : compr) (lz4p : Segment.compressor) (rfs : list RawFrame) (ss : list wire_seg) (st : conn compr),
   Forall raw_ok rfs -> Forall (calm raw_fc r) rfs ->
-  segmentation_hdr 9 (map raw_env rfs) ss -> Forall (fun w => payload_ok lz4p c (ws_payload w)) ss ->
+  segmentation (map raw_env rfs) ss -> Forall (fun w => payload_ok lz4p c (ws_payload w)) ss ->
   c_modern st = true -> c_comp st = c -> c_target st = 0 -> c_acc st = [] ->
   exists wire, encode_wire (seg_sc lz4p) c ss = Ok wire /\
                rx_all raw_fc (seg_sc lz4p) r st wire = (st, rfs, RxOk).
 Proof. exact modern_delivery_raw. Qed.
 Print Assumptions C15_modern_delivery_raw.
 
-(* ... and for the frames of model/Frame.v over any message codec that satisfies the per-message laws of C01 / C03
-   (round trip with arbitrary suffix, declared length = emitted length) and keeps the kind of a message *)
+(* ... and for the frames of model/Frame.v over the assembled message codecs (model/MsgCodec.v): version-valid frames
+   (frame_ok over message_okb, as in C01) with a 9-byte header and the compression flag clear; the per-message laws are
+   FrameFinal.H_rt_concrete / H_len_concrete, the kind of a message is kept by its normal form (ConnProofs.kind_concrete) *)
 Theorem C15_modern_delivery_frames :
-  forall (mc : msg_codec) (msg_ok : Z -> Message -> Prop) (msg_norm : Z -> Message -> Message),
-  (forall v m, supported v -> msg_ok v m ->
-     exists mb, mc_encode mc v m = Ok mb /\ forall rest, mc_decode mc v (msg_opcode m) (mb ++ rest) = DOk (msg_norm v m) rest) ->
-  (forall v m mb, supported v -> msg_ok v m -> mc_encode mc v m = Ok mb -> mc_length mc v m = Ok (zlen mb)) ->
-  forall (lz4b snb : Frame.compressor) (fatal : Message -> bool),
-  (forall v m, msg_ok v m ->
-     msg_switch v (msg_norm v m) = msg_switch v m /\ msg_startup (msg_norm v m) = msg_startup m /\
-     fatal (msg_norm v m) = fatal m) ->
-  forall (r : role) (c : compr) (lz4p : Segment.compressor) (fs : list Frame) (envs : list (list Z)) (nfs : list Frame)
-         (ss : list wire_seg) (st : conn compr),
-  envelopes_ok mc msg_ok msg_norm fs envs nfs -> Forall (calm (ffc mc lz4b snb fatal) r) nfs ->
-  segmentation_hdr 9 envs ss -> Forall (fun w => payload_ok lz4p c (ws_payload w)) ss ->
+  forall (r : role) (c : compr) (lz4p : Segment.compressor) (lz4b snb : Frame.compressor)
+         (fs : list Frame) (envs : list (list Z)) (nfs : list Frame) (ss : list wire_seg) (st : conn compr),
+  envelopes_ok the_msg_codec msg_ok norm_message fs envs nfs -> Forall (calm (cfc lz4b snb) r) nfs ->
+  segmentation envs ss -> Forall (fun w => payload_ok lz4p c (ws_payload w)) ss ->
   c_modern st = true -> c_comp st = c -> c_target st = 0 -> c_acc st = [] ->
   exists wire, encode_wire (seg_sc lz4p) c ss = Ok wire /\
-               rx_all (ffc mc lz4b snb fatal) (seg_sc lz4p) r st wire = (st, nfs, RxOk).
-Proof. exact modern_delivery_frames. Qed.
+               rx_all (cfc lz4b snb) (seg_sc lz4p) r st wire = (st, nfs, RxOk).
+Proof. exact modern_delivery_concrete. Qed.
 Print Assumptions C15_modern_delivery_frames.
 
-(* full strength (every split the specification allows) is FALSE for the code as it is: a 29-byte envelope cut into
-   parts of 5, 10 and 14 bytes aborts the connection and nothing is delivered (replayed on the real code by the harness) *)
-Theorem C15_modern_delivery_refuted :
-  exists (rf : RawFrame) (ss : list wire_seg) (wire : list Z),
-    raw_ok rf /\ calm raw_fc Server rf /\
-    segmentation [raw_env rf] ss /\
-    Forall (fun w => payload_ok never_worth CNone (ws_payload w)) ss /\
-    encode_wire (seg_sc never_worth) CNone ss = Ok wire /\
-    rx_all raw_fc (seg_sc never_worth) Server (mkConn true CNone 0 []) wire = (mkConn true CNone 0 [], [], RxAbort).
-Proof. exact split_before_header_refuted. Qed.
-Print Assumptions C15_modern_delivery_refuted.
+(* a header that does not decode (from the first 9 accumulated bytes) aborts the connection: what the code does *)
+Theorem C15_bad_header_aborts :
+  forall (F H C : Type) (fc : fcodec F H C) (sc : scodec C) (r : role) (st : conn C) (p bs rest : list Z),
+  c_modern st = true -> c_target st = 0 -> seg_law sc (c_comp st) false p bs ->
+  fc_hlen fc <= zlen (c_acc st ++ p) -> fc_dec_hdr fc (c_acc st ++ p) = DErr ->
+  rx_step fc sc r st (bs ++ rest) = (set_acc st 0 (c_acc st ++ p), [], RxAbort, rest).
+Proof. exact @bad_header_aborts. Qed.
+Print Assumptions C15_bad_header_aborts.
 
-(* ---- (1) instantiated: legacy delivery of frames of model/Frame.v (compression flag clear), and the law of a
-   compressed legacy frame when both ends hold the same lossless body compressor *)
+(* ---- (1) instantiated: legacy delivery of version-valid frames (compression flag clear) over the assembled message
+   codecs, and the law of a compressed legacy frame when both ends hold the same lossless body compressor *)
 Theorem C15_legacy_delivery_frames :
-  forall (mc : msg_codec) (msg_ok : Z -> Message -> Prop) (msg_norm : Z -> Message -> Message),
-  (forall v m, supported v -> msg_ok v m ->
-     exists mb, mc_encode mc v m = Ok mb /\ forall rest, mc_decode mc v (msg_opcode m) (mb ++ rest) = DOk (msg_norm v m) rest) ->
-  (forall v m mb, supported v -> msg_ok v m -> mc_encode mc v m = Ok mb -> mc_length mc v m = Ok (zlen mb)) ->
-  forall (lz4b snb : Frame.compressor) (fatal : Message -> bool),
-  (forall v m, msg_ok v m ->
-     msg_switch v (msg_norm v m) = msg_switch v m /\ msg_startup (msg_norm v m) = msg_startup m /\
-     fatal (msg_norm v m) = fatal m) ->
-  forall (r : role) (lz4p : Segment.compressor) (fs : list Frame) (envs : list (list Z)) (nfs : list Frame) (st : conn compr),
-  envelopes_ok mc msg_ok msg_norm fs envs nfs -> Forall (calm (ffc mc lz4b snb fatal) r) nfs -> c_modern st = false ->
-  rx_all (ffc mc lz4b snb fatal) (seg_sc lz4p) r st (concat envs) = (st, nfs, RxOk).
-Proof. exact legacy_delivery_frames. Qed.
+  forall (r : role) (lz4p : Segment.compressor) (lz4b snb : Frame.compressor)
+         (fs : list Frame) (envs : list (list Z)) (nfs : list Frame) (st : conn compr),
+  envelopes_ok the_msg_codec msg_ok norm_message fs envs nfs -> Forall (calm (cfc lz4b snb) r) nfs -> c_modern st = false ->
+  rx_all (cfc lz4b snb) (seg_sc lz4p) r st (concat envs) = (st, nfs, RxOk).
+Proof. exact legacy_delivery_concrete. Qed.
 Print Assumptions C15_legacy_delivery_frames.
 
 Theorem C15_legacy_compressed_frame_law :
-  forall (mc : msg_codec) (msg_ok : Z -> Message -> Prop) (msg_norm : Z -> Message -> Message),
-  (forall v m, supported v -> msg_ok v m ->
-     exists mb, mc_encode mc v m = Ok mb /\ forall rest, mc_decode mc v (msg_opcode m) (mb ++ rest) = DOk (msg_norm v m) rest) ->
-  (forall v m mb, supported v -> msg_ok v m -> mc_encode mc v m = Ok mb -> mc_length mc v m = Ok (zlen mb)) ->
-  forall (lz4b snb : Frame.compressor) (fatal : Message -> bool),
-  (forall v m, msg_ok v m ->
-     msg_switch v (msg_norm v m) = msg_switch v m /\ msg_startup (msg_norm v m) = msg_startup m /\
-     fatal (msg_norm v m) = fatal m) ->
-  forall (c : compr) (k : Frame.compressor) (f : Frame) (mb y : list Z),
+  forall (lz4b snb : Frame.compressor) (c : compr) (k : Frame.compressor) (f : Frame) (mb y : list Z),
   body_comp lz4b snb c = Some k -> comp_lossless k ->
-  frame_ok msg_ok f -> 3 <= h_Version (f_Header f) ->
+  frame_valid f -> 3 <= h_Version (f_Header f) ->
   has (h_Flags (f_Header f)) HeaderFlagCompressed = true ->
-  mc_encode mc (h_Version (f_Header f)) (bd_Message (f_Body f)) = Ok mb ->
+  mc_encode the_msg_codec (h_Version (f_Header f)) (bd_Message (f_Body f)) = Ok mb ->
   cmp_compress k (body_bytes (f_Header f) (f_Body f) mb) = Ok y -> zlen y < 2147483648 - 9 ->
-  frame_law (ffc mc lz4b snb fatal) c c f (hdr_bytes (with_body_length (f_Header f) (zlen y)) ++ y)
-            (frame_normal msg_norm f (zlen y)).
-Proof. exact frame_law_compressed. Qed.
+  frame_law (cfc lz4b snb) c c f (hdr_bytes (with_body_length (f_Header f) (zlen y)) ++ y) (frame_normal f (zlen y)).
+Proof. exact compressed_frame_law_concrete. Qed.
 Print Assumptions C15_legacy_compressed_frame_law.
 
 (* ---- (3) transmit conformance ("v5 wire bytes follow the specification").
@@ -159,6 +135,7 @@ Print Assumptions C15_clear_flag.
 Theorem C15_tx_rx_modern :
   forall (F H C : Type) (fc : fcodec F H C) (sc : scodec C) (rs rr : role) (c : C)
          (fs : list F) (envs : list (list Z)) (nfs : list F) (segbs : list (list Z)) (snd rcv : conn C),
+  0 < fc_hlen fc ->
   tx_script fc sc rs c fs envs nfs segbs -> Forall (calm fc rr) nfs ->
   c_modern snd = true -> c_comp snd = c ->
   c_modern rcv = true -> c_comp rcv = c -> c_target rcv = 0 -> c_acc rcv = [] ->
@@ -223,12 +200,23 @@ Proof. exact ex_legacy. Qed.
 (* (2) v5: four envelopes, the second cut into THREE non-self-contained segments (20 + 25 + 24 bytes), the last two
    together in one self-contained segment *)
 Example C15_ex_modern_split :
-  segmentation_hdr 9 (map raw_env ex5_frames) ex5_segments /\
+  segmentation (map raw_env ex5_frames) ex5_segments /\
   exists wire, encode_wire ex_sc CNone ex5_segments = Ok wire /\
                rx_all raw_fc ex_sc Server modern0 wire = (modern0, ex5_frames, RxOk).
 Proof. exact (conj ex5_segmentation ex_modern_split). Qed.
 Example C15_ex_modern_split_shape :
   map (fun w => (ws_self w, zlen (ws_payload w))) ex5_segments = [(true, 29); (false, 20); (false, 25); (false, 24); (true, 23)].
+Proof. vm_compute. reflexivity. Qed.
+
+(* (2) v5: a cut INSIDE the 9-byte header and zero-length parts: a 29-byte envelope carried by non-self-contained segments of
+   5, 0, 3, 21 and 0 bytes, then a self-contained segment *)
+Example C15_ex_header_cut :
+  segmentation (map raw_env [ex5_q1; ex5_q4]) ex5h_segments /\
+  exists wire, encode_wire ex_sc CNone ex5h_segments = Ok wire /\
+               rx_all raw_fc ex_sc Server modern0 wire = (modern0, [ex5_q1; ex5_q4], RxOk).
+Proof. exact (conj ex5h_segmentation ex_header_cut). Qed.
+Example C15_ex_header_cut_shape :
+  map (fun w => (ws_self w, zlen (ws_payload w))) ex5h_segments = [(false, 5); (false, 0); (false, 3); (false, 21); (false, 0); (true, 9)].
 Proof. vm_compute. reflexivity. Qed.
 
 (* (3) v5: the server writes a RESULT on which the compression flag had been set *)
@@ -249,10 +237,9 @@ Example C15_ex_no_switch_v4 :
   joint_run raw_fc ex_sc ends0 (ex_events 4) = (ends0, ex_delivered 4, RxOk).
 Proof. exact (conj ex_session_v4 (proj1 ex_no_switch_v4)). Qed.
 
-(* the frame instance (C15_modern_delivery_frames) is not vacuous: a message codec for the two messages without body meets
-   its hypotheses, and three OPTIONS frames of model/Frame.v travel through a segmentation (two grouped, one carried by a
-   non-self-contained segment) *)
+(* C15_modern_delivery_frames is not vacuous: three OPTIONS frames of version 5 through the real message codecs; the first
+   envelope (9 bytes) is cut inside its header into parts of 4, 0 and 5 bytes, the other two share a self-contained segment *)
 Example C15_ex_frames_instance :
-  exists wire, encode_wire ex_sc CNone exf_segments = Ok wire /\
-               rx_all exf_fc ex_sc Server modern0 wire = (modern0, map exf_nf exf_frames, RxOk).
-Proof. exact ex_frames_instance. Qed.
+  exists wire, encode_wire ex_sc CNone exc_segments = Ok wire /\
+               rx_all exc_fc ex_sc Server modern0 wire = (modern0, map exc_nf exf_frames, RxOk).
+Proof. exact ex_concrete_instance. Qed.
